@@ -81,6 +81,16 @@ def fam_b():
                         ("/'g'/'p1l5'", F.daqmx_enc(n1, [(0, 1, 5, 0, 0)], widths, 'dl'), nscales([(0, 1, 5, 0, 0)])),
                         ("/'g'/'p0l5'", F.daqmx_enc(n0, [(0, 0, 5, 0, 0)], widths, 'dl'), nscales([(0, 0, 5, 0, 0)]))]
                 yield ('B', [G.seg(objs, chunks=chunks, big=big)])
+    # a format-changing scaler at byte offset N next to a digital-line scaler at bit offset N (same type, buffer, id): two kinds of
+    # addressing with numerically equal fields, in both declaration orders
+    for code in (0, 2):
+        size = G.DAQMX_TYPES[code][0]
+        for off in (0, 1, 2):
+            for chunks in (1, 2):
+                fc = ("/'g'/'analog'", F.daqmx_enc(3, [(code, 0, off, 0, 0)], [size + 3], 'fc'), nscales([(code, 0, off, 0, 0)]))
+                dl = ("/'g'/'line'", F.daqmx_enc(3, [(code, 0, off, 0, 0)], [size + 3], 'dl'), nscales([(code, 0, off, 0, 0)]))
+                yield ('B', [G.seg([fc, dl], chunks=chunks)])
+                yield ('B', [G.seg([dl, fc], chunks=chunks)])
     # several digital lines of one port as several channels
     for chunks in (1, 2):
         objs = [("/'g'/'line%d'" % b, F.daqmx_enc(2, [(0, 0, b, 0, 0)], [2], 'dl'), nscales([(0, 0, b, 0, 0)])) for b in range(0, 16, 3)]
